@@ -65,7 +65,8 @@ def _quiet_worker():
         devnull = os.open(os.devnull, os.O_WRONLY)
         os.dup2(devnull, 2)          # LAPACK's XERBLA writes straight to fd 2
         os.close(devnull)
-        faulthandler.enable(file=os.fdopen(keep, "w"))
+        _QUIET.append(os.fdopen(keep, "w"))      # keep the file object alive for faulthandler
+        faulthandler.enable(file=_QUIET[-1])
     except OSError:
         faulthandler.enable()
 
